@@ -125,6 +125,14 @@ CHECKS = {
             "octave_validate with the schema planted.",
             "character classes are explored through representative characters; unbounded repetition is cut at 3",
             "DESIGN.md §3 C13"),
+    "C14": ("exploration",
+            "leaf-set relations (subset / equality / honest flag / agreement across formats) with independent per-format readers",
+            "Generated documents are ejected in 4 modes x 4 formats (tool) and 4 x 3 (CLI); each view is read back with an "
+            "independent reader (OCTAVE reader, json, yaml.safe_load, Markdown scanner) into (key path, typed value) leaves: "
+            "never a leaf the source lacks; canonical/authoring hold every leaf and say lossy=false; a dropping view says "
+            "lossy=true; JSON/YAML/OCTAVE of one projection agree on key paths, Markdown names every key. Sampled.",
+            "Markdown is compared by key names and scalar text only (headings cannot close a nested block); key order is not asserted",
+            "DESIGN.md §3 C14"),
 }
 
 NOT_YET = {
